@@ -59,7 +59,7 @@ theorem victim_queue_over_guarantee (w : World) (nt : Bool) (r : TryResult) (h :
   intro v hv
   exact (hcoll v (hsub.subset hv)).2
 
-/-- THE GUARANTEE RULE ON THE WORLD ITSELF, full strength (refuted before the repository fix 67d9272 by the path-prefix
+/-- THE GUARANTEE RULE ON THE WORLD ITSELF, full strength (refuted before the repository fix 198ba47 by the path-prefix
     sibling `root.a` / `root.a1`; holds now): in every well-formed world — parents before children, the ask names a queue,
     queue paths identify queues, a queue whose path plus "." is a prefix of the ask queue's path is one of its ancestors
     (`wellFormedB`, evaluated by the driver on every generated world) — a leaf offers victims only if, whenever a queue
@@ -164,7 +164,7 @@ theorem quota_claim_bounded (plan : Res) (cands : List PAlloc) :
 /-- The distribution of a parent's plan over its children (first pass of getChildQueuesPreemptableResource): with a
     guarantee set, every type of a child's preemptable usage — the only types its share can list — is a type the
     guarantee defines and the child's allocation exceeds, by exactly the listed amount; so a child at or below its
-    guarantee on a type gets no share of that type (holds since the repository fix 4c673ba; the float valued size of
+    guarantee on a type gets no share of that type (holds since the repository fix 5aef914; the float valued size of
     the share is taken from the implementation, the driver checks that its types are types of this vector). -/
 theorem quota_child_share_respects_guarantee (w : World) (c : Nat) (q : PQ) (hq : w.queues[c]? = some q) (g u : Res)
     (hg : q.guar = some g) (hne : g ≠ []) (hu : childPreemptableUsage w c = some u) :
